@@ -188,28 +188,41 @@ def setMark (s : St) (m : Mark) (w : WM.St) : St :=
   | .txn => { s with tm := w }
   | .read => { s with rm := w }
 
-/-- has the watermark call `w` returned? -/
+/-- the watermark calls the oracle makes (`BeginMany` / `DoneMany` are never used by txn.go) -/
+inductive Call where
+  | begin (i : Nat)            -- WaterMark.Begin(i)
+  | done (i : Nat)             -- WaterMark.Done(i)
+  | wait (i : Nat)             -- WaterMark.WaitForMark(i)
+  | adv                        -- Begin(0) when index 0 is ignored: a bare tryAdvance
+  deriving DecidableEq, Repr
+
+def Call.kind : Call → WM.Kind
+  | .begin i => .begin i
+  | .done i => .done i
+  | .wait i => .wait i
+  | .adv => .adv
+
+def Call.act (w : Nat) : Call → WM.Act
+  | .begin i => .begin w i
+  | .done i => .done w i
+  | .wait i => .wait w i
+  | .adv => .adv w
+
+/-- has the watermark call returned?  (`WaitForMark`: its `returned` flag; every other call: its
+program has run out) -/
 def thrDone (c : WM.WMCfg) (t : WM.Thr) : Bool :=
   match t.kind with
   | .wait _ => t.returned
-  | .begin _ => ((WM.progOf c t.kind)[t.stage]?).isNone
-  | .done _ => ((WM.progOf c t.kind)[t.stage]?).isNone
-  | .adv => ((WM.progOf c t.kind)[t.stage]?).isNone
+  | _ => ((WM.progOf c t.kind)[t.stage]?).isNone
 
 def callDone (c : WM.WMCfg) (ws : WM.St) (w : Nat) : Bool :=
   match ws.thr w with
   | some t => thrDone c t
   | none => true
 
-def actOf (w : Nat) : WM.Kind → WM.Act
-  | .begin i => .begin w i
-  | .done i => .done w i
-  | .wait i => .wait w i
-  | .adv => .adv w
-
 /-- enter a watermark call: a fresh `WM` thread; the transaction thread continues at `k` when it returns -/
-def enter (c : SnapCfg) (s : St) (tid : Nat) (t : Txn) (m : Mark) (kind : WM.Kind) (k : Pc) : Option St :=
-  match WM.step c.wm false (markOf s m) (actOf s.wfresh kind) with
+def enter (c : SnapCfg) (s : St) (tid : Nat) (t : Txn) (m : Mark) (call : Call) (k : Pc) : Option St :=
+  match WM.step c.wm false (markOf s m) (call.act s.wfresh) with
   | some ws => some { (setMark (setT s tid { t with pc := .call m s.wfresh k }) m ws) with wfresh := s.wfresh + 1 }
   | none => none
 
